@@ -54,7 +54,7 @@ impl<H: Hal, T: Transport> BufRead for VirtIOConsole<H, T> {
     }
 
     fn consume(&mut self, amt: usize) {
-        assert!(self.cursor + amt <= self.pending_len);
+        assert!(amt <= self.pending_len - self.cursor);
         self.cursor += amt;
     }
 }
